@@ -913,10 +913,26 @@ func (env *Env) binop(op token.Token, a, b Val, ta, tb types.Type, pos token.Pos
 			return mk(">", SBool)
 		case token.GEQ:
 			return mk(">=", SBool)
-		case token.OR:
-			return mk("int.or", SInt)
-		case token.AND:
-			return mk("int.and", SInt)
+		case token.OR, token.AND, token.XOR, token.AND_NOT:
+			// small unsigned integer types: exact bit-vector semantics through int2bv / bv2nat
+			if w := smallUnsignedWidth(ta); w > 0 {
+				f := map[token.Token]string{token.OR: "bvor", token.AND: "bvand", token.XOR: "bvxor"}[op]
+				ab := fmt.Sprintf("((_ int2bv %d) %s)", w, a.T.S)
+				bb := fmt.Sprintf("((_ int2bv %d) %s)", w, b.T.S)
+				var r string
+				if op == token.AND_NOT {
+					r = app("bvand", ab, app("bvnot", bb))
+				} else {
+					r = app(f, ab, bb)
+				}
+				return Val{T: Term{app("bv2nat", r), SInt}, GoT: a.GoT}
+			}
+			if op == token.OR {
+				return mk("int.or", SInt)
+			}
+			if op == token.AND {
+				return mk("int.and", SInt)
+			}
 		}
 	case isBV(s):
 		f := map[token.Token]string{token.ADD: "bvadd", token.SUB: "bvsub", token.MUL: "bvmul", token.AND: "bvand", token.OR: "bvor", token.XOR: "bvxor",
@@ -1368,4 +1384,20 @@ func (env *Env) funcVal(o *types.Func) Val {
 	name := "fn." + strings.NewReplacer(":", ".", " ", "", "(", "", ")", "", "*", "").Replace(env.c.eng.keyOfFunc(o))
 	env.c.declOnce(fmt.Sprintf("(declare-const %s Func)", name))
 	return Val{T: Term{name, "Func"}, GoT: o.Type()}
+}
+
+// smallUnsignedWidth: 8 or 16 for uint8/uint16 (and named types over them), else 0.
+func smallUnsignedWidth(t types.Type) int {
+	if t == nil {
+		return 0
+	}
+	if b, ok := t.Underlying().(*types.Basic); ok {
+		switch b.Kind() {
+		case types.Uint8:
+			return 8
+		case types.Uint16:
+			return 16
+		}
+	}
+	return 0
 }
